@@ -994,7 +994,7 @@ class AffInterp:
         ci = self.p.resolve_class_expr(node, mod)
         if ci is not None:
             return ClassRef(ci)
-        if node.id in ("hasattr", "getattr", "len", "range", "enumerate", "zip", "min", "max", "print", "isinstance", "abs", "float", "int", "any", "all", "reversed", "sum"):
+        if node.id in ("hasattr", "getattr", "len", "range", "enumerate", "zip", "min", "max", "print", "isinstance", "abs", "float", "int", "any", "all", "reversed", "sum", "list", "tuple"):
             return NpRef("builtin." + node.id)
         if node.id in mod.imports or node.id in mod.from_imports:
             return Opaque(node.id)
@@ -1338,6 +1338,10 @@ class AffInterp:
                 return any(ts) if base == "any" else all(ts)
             if base == "reversed":
                 return list(reversed(list(self.iterate(args[0], node, func))))
+            if base in ("list", "tuple") and len(args) == 1 and isinstance(args[0], (list, tuple, CArr, range)):
+                return list(self.iterate(args[0], node, func))                # a new list of the same elements (a shallow copy)
+            if base in ("list", "tuple") and not args:
+                return []
             if base == "float" and len(args) == 1 and isinstance(args[0], (int, Fraction, S)):
                 return Fraction(args[0]) if isinstance(args[0], int) else args[0]       # exact in real arithmetic
             if base == "int" and len(args) == 1 and isinstance(args[0], int):
